@@ -342,6 +342,9 @@ def talkpagename_fn(
         prefix = ctx.title[:ofs]
         if prefix not in ctx.NAMESPACE_DATA:
             return ctx.NAMESPACE_DATA["Talk"]["name"] + ":" + ctx.title
+        if prefix + " talk" not in ctx.NAMESPACE_DATA:
+            # already a talk page (or a namespace without talk pages)
+            return ctx.title
         return (
             ctx.NAMESPACE_DATA[prefix + " talk"]["name"]
             + ":"
@@ -394,6 +397,9 @@ def talkspace_fn(
     t = expander(args[0]) if args else ctx.title or "ERROR_NAMESPACE"
     for prefix in ctx.NAMESPACE_DATA:
         if t.startswith(prefix + ":"):
+            if prefix + " talk" not in ctx.NAMESPACE_DATA:
+                # already a talk namespace (or one without talk pages)
+                return ctx.NAMESPACE_DATA[prefix]["name"]
             return ctx.NAMESPACE_DATA[prefix + " talk"]["name"]
     return ctx.NAMESPACE_DATA["Talk"]["name"]
 
